@@ -75,7 +75,7 @@ Fs(cl, n) == IF HasParent(cl, n) THEN FsRec(cl, n) ELSE cl[n].fields
 \* the same table with every hierarchy resolved (each class lists all of its fields, no `extends`): what the
 \* semantic operators below are applied to (Fs of a flat table is a plain field access)
 Flat(cl) == [n \in DOMAIN cl |->
-               [meta |-> cl[n].meta, extends |-> "", pyname |-> cl[n].pyname, fields |-> Fs(cl, n)]]
+               [meta |-> cl[n].meta, extends |-> "", pyname |-> cl[n].pyname, where |-> cl[n].where, fields |-> Fs(cl, n)]]
 RECURSIVE Ancestors(_, _)
 Ancestors(cl, n) == IF HasParent(cl, n) THEN {cl[n].extends} \cup Ancestors(cl, cl[n].extends) ELSE {}
 
@@ -144,6 +144,13 @@ KeysBijective(cl, n) ==
 \* models returned by a factory (`page_of(User)` / `page_of(Order)` are both `page_of.<locals>.Page`),
 \* `make_dataclass` under a fixed name, a reloaded model module.  Every entry carries `pyname` ("" = its key).
 PyClsName(cl, n) == IF cl[n].pyname = "" THEN n ELSE cl[n].pyname
+\* WHERE a class is declared is part of its identity as python sees it: `where` = "module" (qualname = name),
+\* "nested" (declared inside another class: `Outer.Name`), "local" (inside a function: `factory.<locals>.Name`).
+\* Nothing in the reference semantics depends on it - which is the point: the laws and the error-naming clause
+\* hold for every declaration place.
+QualName(cl, n) == CASE cl[n].where = "nested" -> "Outer." \o PyClsName(cl, n)
+                     [] cl[n].where = "local"  -> "factory.<locals>." \o PyClsName(cl, n)
+                     [] OTHER -> PyClsName(cl, n)
 
 MetaConsistent(cl, n) ==
   LET own == cl[n].fields IN
@@ -493,9 +500,12 @@ HistoryIndependent(cl, calls) ==
 (* repository's unit tests), `..r` fields with the resolved class (module-level class / PEP 563 annotations). *)
 (* g == [n, edges : SUBSET [from, kind, to], root : "node" | "list"]                                          *)
 
-EdgeKinds == {"nf", "nr", "kf", "kr", "mr", "av"}
+\* container NESTING between two instances is a dimension too (all with unresolvable forward references unless `r`):
+\*   ll : Optional[List[List[Node]]]   llr : the same, resolved      dl  : Optional[Dict[str, List[Node]]]
+\*   ldl: Optional[List[Dict[str, List[Node]]]]                      tu  : Optional[Tuple[Node, ...]]
+EdgeKinds == {"nf", "nr", "kf", "kr", "mr", "av", "ll", "llr", "dl", "ldl", "tu"}
 SingleKinds == {"nf", "nr", "av"}
-ResolvedKinds == {"nr", "kr", "mr", "av"}      \* cattrs itself follows these references
+ResolvedKinds == {"nr", "kr", "mr", "av", "llr"}      \* cattrs itself follows these references
 
 GraphOK(g) == \A e1, e2 \in g.edges : (e1.from = e2.from /\ e1.kind = e2.kind /\ e1.kind \in SingleKinds) => e1 = e2
 
@@ -520,7 +530,11 @@ NodeTree(g, n, fuel) ==   \* expected serialisation of an ACYCLIC graph below no
       val(k) == IF k = "name" THEN WLeaf("s", NodeName(n))
                 ELSE IF k \in SingleKinds THEN sub(CHOOSE m \in out(k) : TRUE)
                 ELSE IF k = "mr" THEN WObj([key \in {NodeName(m) : m \in out(k)} |-> sub(CHOOSE m \in out(k) : NodeName(m) = key)])
-                ELSE WList([i \in 1..Cardinality(out(k)) |-> sub(SetToSortSeq(out(k), <)[i])])
+                ELSE LET items == WList([i \in 1..Cardinality(out(k)) |-> sub(SetToSortSeq(out(k), <)[i])])
+                     IN CASE k \in {"ll", "llr"} -> WList(<<items>>)
+                          [] k = "dl"  -> WObj([key \in {"k"} |-> items])
+                          [] k = "ldl" -> WList(<<WObj([key \in {"k"} |-> items])>>)
+                          [] OTHER -> items      \* kf, kr, tu (a tuple is written as an array)
   IN WObj([k \in keys |-> val(k)])
 
 \* root "list": serialize([node 1, ..., node n, node 1])
